@@ -1,8 +1,16 @@
 import Oracle.C08
+import Oracle.E2E
+import Oracle.C09
 import Oracle.C10
+import Oracle.C12
+import Oracle.C13
+import Oracle.C14
 import Oracle.C15
+import Oracle.C16
 import Oracle.C17
 import Oracle.C18
+import Oracle.C19
+import Oracle.C20
 /- Oracle: one operation per input line, one answer per output line. -/
 open Oracle
 
@@ -10,7 +18,7 @@ def dispatch (line : String) : String :=
   match words line with
   | [] => "bad-op"
   | cmd :: args =>
-    let hs : List (String → List String → Option String) := [C08.handle, C10.handle, C15.handle, C17.handle, C18.handle]
+    let hs : List (String → List String → Option String) := [E2E.handle, C08.handle, C09.handle, C10.handle, C12.handle, C13.handle, C14.handle, C15.handle, C16.handle, C17.handle, C18.handle, C19.handle, C20.handle]
     match hs.findSome? (fun h => h cmd args) with
     | some r => r
     | none => "bad-op"
